@@ -222,7 +222,10 @@ theorem makeResult_text (r : Reconciler) (text : Bytes) (rec : Record) (h : r.ma
   · cases h
   · cases h
 
-/- TODO-repair (model changed with fix D18: separator is omitted after a dangling blank)
+theorem EditLemmas.ite_sep (c : Bool) : (if c = true then ([] : Bytes) else [SP]) = [] ∨ (if c = true then ([] : Bytes) else [SP]) = [SP] := by
+  cases c <;> simp
+
+/-- repaired after fix D18: the separator is omitted after a dangling blank -/
 theorem closeOpenRange_spec (r r' : Reconciler) (e : Time) (fmt : Reformat Bool) (add : List Bytes)
     (h : r.closeOpenRange e fmt add = some r') :
     ∃ (valueLine lastLine : Nat) (endValue : Bytes) (mid : List Line) (sep : Bytes),
@@ -253,15 +256,14 @@ theorem closeOpenRange_spec (r r' : Reconciler) (e : Time) (fmt : Reformat Bool)
         cases h
         refine ⟨_, _, _, _, _, ?_, ?_, rfl, rfl⟩
         · omega
-        · split <;> simp
+        · exact EditLemmas.ite_sep _
       · dsimp only at h
         simp only [List.isEmpty_cons, Bool.false_eq_true, if_false] at h
         cases h
         refine ⟨_, _, _, _, _, ?_, ?_, rfl, rfl⟩
         · omega
-        · split <;> simp
+        · exact EditLemmas.ite_sep _
 
--/
 
 namespace EditLemmas
 
